@@ -123,6 +123,8 @@ fn stage_sig(st: &Stage, len: usize) -> String {
         Stage::Shift { n, .. } => format!("shift[{}]", lag_class(*n, len)),
         Stage::VShift { n, fill } => format!("vshift[{},{}]", lag_class(*n, len), fill.is_some()),
         Stage::Take { k } => format!("take[{}]", k_class(*k, len + 1)),
+        Stage::StepBy { k } => format!("step_by[{}]", (*k).min(4)),
+        Stage::Loose { m } => format!("filter[{m}]"),
         Stage::VClip { lo, hi } => format!("vclip[{},{}]", lo.is_null(), hi.is_null()),
         Stage::Remat { backend, op } => format!("remat[{},{}]", backend.kind(), viewop_sig(op, len)),
         Stage::VCut { bins, labels, right, add_bounds } => {
@@ -183,7 +185,10 @@ fn scan(p: &Pipe) -> Option<(&'static str, usize)> {
             },
             Ok(o) => {
                 let got = o.drained.len();
-                let bad = if o.capped { matches!(o.hint.1, Some(hi) if hi < got) } else { o.hint.1 != Some(got) };
+                let bad = if o.plain {
+                    // an untrusted iterator may announce a loose bound; nothing to hold it to
+                    false
+                } else if o.capped { matches!(o.hint.1, Some(hi) if hi < got) } else { o.hint.1 != Some(got) };
                 if bad {
                     return Some(("H1", cut));
                 }
@@ -251,7 +256,10 @@ pub fn check_pipe(p: &Pipe) -> (Vec<Violation>, RunStats) {
                 fnv(&mut digest, format!("{:?}{:?}{:?}", o.hint, o.drained, o.pulled).as_bytes());
                 st.hints_checked += 1;
                 let got = o.drained.len();
-                let bad = if o.capped {
+                let bad = if o.plain {
+                    // an untrusted iterator may announce a loose bound; nothing to hold it to
+                    false
+                } else if o.capped {
                     // stream not exhausted within the cap: only over-yield is decidable
                     matches!(o.hint.1, Some(hi) if hi < got)
                 } else {
@@ -680,7 +688,10 @@ fn check_sink(
                 viol.push(Violation { props: vec!["C19"], oracle: "K4", stage: stage.clone(), detail: d })
             };
             if slots.len() != b {
-                complain(format!("buffer of length {b} has {} slots afterwards", slots.len()));
+                complain(format!(
+                    "buffer of length {b}: {} slots observed afterwards (a write landed outside the buffer's own slots, or the buffer changed length)",
+                    slots.len()
+                ));
                 return;
             }
             let untouched = |s: &Option<Obs>| match s {
